@@ -115,6 +115,13 @@ def compute_hypervolume(
         # reference_point does not have nan, thanks to the verification above.
         return float("inf")
 
+    # A point that touches the reference point in some coordinate dominates a box of zero volume.
+    # It is dropped here: with an infinite extent in another coordinate its ``0 * inf = nan`` would
+    # otherwise be reported as an infinite hypervolume.
+    loss_vals = loss_vals[np.all(loss_vals < reference_point, axis=1)]
+    if loss_vals.shape[0] == 0:
+        return 0.0
+
     if not assume_pareto:
         unique_lexsorted_loss_vals = np.unique(loss_vals, axis=0)
         on_front = _is_pareto_front(unique_lexsorted_loss_vals, assume_unique_lexsorted=True)
